@@ -16,4 +16,4 @@ def run(ctx):
         sections=['refs', 'areas', 'rels', 'colls', 'hang'],
         meta_rule='every transition of scenarios 3-4 executed via its shortest prefix on 4 world constructions + random walks',
         assumptions=[],
-        focused=(100, 1500))
+        focused=(100, 600))
